@@ -103,6 +103,13 @@ def _delta_keywords(fn, call):
     return names
 
 
+def run_extra(ctx: Ctx):
+    # ---------------------------------------------------------------- R14.4 answers never come from state that outlives the question
+    from .common import process_state_rule
+    process_state_rule(ctx, "R14.4", [ctx.repo.func("Project.schedule"), ctx.repo.func("ProjectFileParser.parse")],
+                       "a calendar answer kept from the unshifted project (or another date of it) is given to the shifted one")
+
+
 def run(ctx: Ctx):
     import ast as _a
     from ..model import Inconclusive, own_nodes
